@@ -665,6 +665,23 @@ def part_d(tier):
                               'dump': dump_xml(props=[('p', pt, flags), ('q-r', 'gint', 3)],
                                                signals=[('sig', 'void', ['gint', pt]), ('sig2', pt, [])]),
                               'note': 'property p of GType %s flags %d, accessors %s' % (pt, flags, acc)})
+    # multi-word (dashed) property names: big-value with foo_thing_set_big_value / get_big_value (and
+    # is_big_value), for every property type above - the bindable ones are the controls
+    for pt in ptypes:
+        for flags in (1, 3, 3 | 4):
+            for acc in ('both', 'setter', 'getter', 'is'):
+                ct = ctype_of[pt]
+                d = CLASS_DECLS_HEAD + ENV + [st('_FooThingClass', [['f', 'parent_class', 'GObjectClass']]), GET_TYPE]
+                if acc in ('both', 'setter'):
+                    d.append(fn('foo_thing_set_big_value', 'void', [('FooThing*', 'self'), (ct, 'v')]))
+                if acc in ('both', 'getter', 'is'):
+                    d.append(fn('foo_thing_get_big_value', ct, [('FooThing*', 'self')]))
+                if acc == 'is':
+                    d.append(fn('foo_thing_set_other_one', 'void', [('FooThing*', 'self'), ('int', 'v')]))
+                    d.append(fn('foo_thing_get_other_one', 'int', [('FooThing*', 'self')]))
+                cases.append({'part': 'D', 'decls': d, 'comments': list(ENV_COMMENTS),
+                              'dump': dump_xml(props=[('big-value', pt, flags), ('other-one', 'gint', 3)]),
+                              'note': 'property big-value of GType %s flags %d, accessors %s' % (pt, flags, acc)})
     return cases
 
 
